@@ -692,6 +692,9 @@ class _ParamUpdater(Thread):
             pk = self.request_queue.get()  # Wait for request update
             self.wait_lock.acquire()
             if self.cf.link:
+                # Requests that do not pass through request_param_update() (set value, misc)
+                # must use the index width of the connected Crazyflie as well
+                self._useV2 = self.cf.platform.get_protocol_version() >= 4
                 if self._useV2:
                     if pk.channel == MISC_CHANNEL:
                         self._lock_pattern = pk.data[:3]
